@@ -72,6 +72,9 @@ func runLangCheck(c *Ctx) {
 	if c.On("C01") {
 		structuralPhase(c, d, &idx)
 	}
+	if c.On("C01") || c.On("C02") {
+		rerunPhase(c, d, &idx)
+	}
 	tiers := langTiers(c)
 	for ti, t := range tiers {
 		g := ref.NewSpecGen(t.leaves)
@@ -178,6 +181,78 @@ func specAlphabet(n *ref.Node, d *ref.Decl) []string {
 	return out
 }
 
+// rerunPhase: a second Run on the same application instance (no environment involved) accepts exactly what a
+// fresh instance accepts, and every container bound by the second command line holds exactly its values.
+func rerunPhase(c *Ctx, d *ref.Decl, idx *int) {
+	g := ref.NewSpecGen(leavesFull)
+	toks := []string{"x", "--", "-a", "-b", "-ab", "-ov", "-o", "-z"}
+	argvs := ref.Argvs(toks, 2)
+	ns := 0
+	for n := 1; n <= 2; n++ {
+		for _, spec := range g.Specs(n) {
+			ns++
+			*idx++
+			if !c.Mine(*idx) || !c.Begin("rerun", spec) {
+				continue
+			}
+			node, _ := ref.ParseSpec(d, spec)
+			for _, a2 := range argvs {
+				ev := ref.Eval{D: d, Argv: a2}
+				v := ev.Run(node)
+				if v.Unclaimed {
+					continue
+				}
+				if !v.Accept {
+					ev2 := ref.Eval{D: d, Argv: a2, GroupAny: true}
+					if ev2.Run(node).Accept {
+						continue
+					}
+				}
+				for _, a1 := range argvs {
+					c.Beat()
+					obs := runLang(d, spec, a2, langOpts{first: a1, hasFirst: true})
+					c.Count("evaluations", 1)
+					c.Count("second_runs_on_same_instance", 1)
+					if v.Accept {
+						c.Count("nontrivial", 1)
+					}
+					key := fmt.Sprintf("spec=%q first Run %q then, on the same instance, argv=%q", spec, a1, a2)
+					cs := Case{"spec": spec, "argv": a2, "first": a1, "rerun": true}
+					if obs.Panic != "" || len(obs.Exits) > 0 || obs.Accepted != v.Accept {
+						if c.On("C01") {
+							c.Violation("C01", key, cs, fmt.Sprintf("accepted=%v (as on a fresh instance)", v.Accept), obs.Summary())
+						}
+						continue
+					}
+					if !obs.Accepted || !c.On("C02") {
+						continue
+					}
+					ok := false
+					for _, b := range v.Binds {
+						m := parseBindText(b)
+						match := true
+						for i := 0; i < d.NC(); i++ {
+							want := m[d.ContainerName(i)]
+							if len(want) > 0 && strings.Join(want, "\x00") != strings.Join(obs.Lists[i], "\x00") {
+								match = false
+							}
+						}
+						if match {
+							ok = true
+						}
+					}
+					if !ok {
+						c.Violation("C02", key, cs, "every container bound by the second command line holds exactly its values: "+strings.Join(v.Binds, " / "), ref.BindTextOf(d, obs.Lists))
+					}
+				}
+			}
+		}
+	}
+	if c.Shard == 0 {
+		c.Note("second runs", fmt.Sprintf("%d specs (size<=2) x %d x %d ordered pairs of command lines (length<=2 over %q): the second Run on the same instance", ns, len(argvs), len(argvs), toks))
+	}
+}
+
 func replayLang(c *Ctx, cs Case) {
 	d := ref.Std()
 	spec := cStr(cs, "spec")
@@ -188,6 +263,33 @@ func replayLang(c *Ctx, cs Case) {
 	}
 	if st, _ := cs["structural"].(bool); st {
 		structuralOne(c, d, spec)
+		return
+	}
+	if rr, _ := cs["rerun"].(bool); rr {
+		argv, first := cStrs(cs, "argv"), cStrs(cs, "first")
+		ev := ref.Eval{D: d, Argv: argv}
+		v := ev.Run(node)
+		obs := runLang(d, spec, argv, langOpts{first: first, hasFirst: true})
+		key := fmt.Sprintf("spec=%q first Run %q then, on the same instance, argv=%q", spec, first, argv)
+		if obs.Accepted != v.Accept && c.On("C01") {
+			c.Violation("C01", key, cs, fmt.Sprintf("accepted=%v (as on a fresh instance)", v.Accept), obs.Summary())
+		}
+		if obs.Accepted && v.Accept && c.On("C02") {
+			ok := false
+			for _, b := range v.Binds {
+				m := parseBindText(b)
+				match := true
+				for i := 0; i < d.NC(); i++ {
+					if want := m[d.ContainerName(i)]; len(want) > 0 && strings.Join(want, "\x00") != strings.Join(obs.Lists[i], "\x00") {
+						match = false
+					}
+				}
+				ok = ok || match
+			}
+			if !ok {
+				c.Violation("C02", key, cs, "every container bound by the second command line holds exactly its values: "+strings.Join(v.Binds, " / "), ref.BindTextOf(d, obs.Lists))
+			}
+		}
 		return
 	}
 	b, _ := cs["builtin"].(bool)
